@@ -167,5 +167,12 @@ func (s *Server) handleRPC(stream *drpcstream.Stream, rpc string) (err error) {
 	if err != nil {
 		return errs.Wrap(stream.SendError(err))
 	}
-	return errs.Wrap(stream.CloseSend())
+	err = stream.CloseSend()
+
+	// the handler has returned, so nothing will ever receive from the stream
+	// again. terminate it so that any messages the client is still sending are
+	// dropped instead of blocking the manager from reading the next rpc.
+	stream.Cancel(context.Canceled)
+
+	return errs.Wrap(err)
 }
